@@ -17,22 +17,6 @@ EXTENDS ParserL0, Props
 CONSTANT MaxLines
 Menu == JsonDeserialize("menu.json")
 VARIABLE vDoc
-Known(nm) == \E d \in DOMAIN LangNames : LangNames[d] = nm
-KindOf(l, ms) == LET D == Dialects[ms.dia] IN
-   IF ms.sep # <<>> THEN (IF StartsWith(LTrim(l), ms.sep) THEN "#DocStringSeparator" ELSE "#Other")
-   ELSE IF Empty(l).ok THEN "#Empty"
-   ELSE IF LangName(l) # <<>> /\ Known(LangName(l)) THEN "#Language"
-   ELSE IF Comment(l).ok THEN "#Comment"
-   ELSE IF TagLine(l).ok THEN "#TagLine"
-   ELSE IF Match("#FeatureLine", l, ms, D).ok THEN "#FeatureLine"
-   ELSE IF Match("#RuleLine", l, ms, D).ok THEN "#RuleLine"
-   ELSE IF Match("#BackgroundLine", l, ms, D).ok THEN "#BackgroundLine"
-   ELSE IF Match("#ScenarioLine", l, ms, D).ok THEN "#ScenarioLine"
-   ELSE IF Match("#ExamplesLine", l, ms, D).ok THEN "#ExamplesLine"
-   ELSE IF Match("#StepLine", l, ms, D).ok THEN "#StepLine"
-   ELSE IF DocSep(l, ms).ok THEN "#DocStringSeparator"
-   ELSE IF Row(l).ok THEN "#TableRow"
-   ELSE "#Other"
 LinesOfDoc(d) == [j \in 1..Len(d) |-> Menu[d[j]]]
 BigRun(d) == RunAll(LinesOfDoc(d), "en", 0, CollectCap)
 KindsOf(d) == LET run == BigRun(d)  ls == LinesOfDoc(d) IN [j \in 1..Len(ls) |-> KindOf(ls[j], run.sts[j].ms)] \o <<"#EOF">>
